@@ -182,6 +182,35 @@ int main(int argc, char** argv) {
         });
         for (auto& th : fts) th.join();
       }
+      // reset against concurrent readers over many keys: a snapshot must be entirely before or entirely after the reset.
+      // Readers log every call; a read whose result is not interesting is cancelled afterwards (removing a completed
+      // read-only operation from a history never makes a linearisable history non-linearisable).
+      if (scn % 2 == 0) {
+        const int nKeys = 96;
+        for (int k = 0; k < nKeys; k++) { std::string key = "r" + std::to_string(k); int id = 60000 + k;
+          evEmit(J().str("e", "Call").num("id", id).str("op", "set").str("key", key).num("val", 7)); stats->set(key, 7); evEmit(J().str("e", "Ret").num("id", id).raw("res", "[]")); }
+        std::atomic<int> phase{0};
+        std::vector<std::thread> rts;
+        for (int t = 0; t < 2; t++) rts.emplace_back([&, t] {
+          int n = 0, logged = 0;
+          while (phase.load() < 2 && n < 4000) {
+            int id = 70000 + t * 10000 + n++;
+            evEmit(J().str("e", "Call").num("id", id).str("op", "getAll").str("key", "").num("val", 0));
+            auto mm = stats->getAll();
+            int zeros = 0, sevens = 0;
+            for (auto& [k, v] : mm) if (k[0] == 'r') { if (v == 0) zeros++; else sevens++; }
+            bool mixed = zeros > 0 && sevens > 0;
+            if (mixed || logged < 2) { logged++; evEmit(J().str("e", "Ret").num("id", id).raw("res", mapJson(mm))); }
+            else evEmit(J().str("e", "Cancel").num("id", id));
+          }
+        });
+        std::this_thread::sleep_for(std::chrono::microseconds(300));
+        evEmit(J().str("e", "Call").num("id", 69999).str("op", "reset").str("key", "").num("val", 0));
+        stats->reset();
+        evEmit(J().str("e", "Ret").num("id", 69999).raw("res", "[]"));
+        phase.store(2);
+        for (auto& th : rts) th.join();
+      }
       evEmit(J().str("e", "Call").num("id", 1).str("op", "getAll").str("key", "").num("val", 0));
       auto fin = stats->getAll();
       evEmit(J().str("e", "Ret").num("id", 1).raw("res", mapJson(fin)));
@@ -224,6 +253,14 @@ int main(int argc, char** argv) {
       for (int i = 0; i < idle; i++) fds.push_back(connectTo(path));
       for (int i = 0; i < partial; i++) { int fd = connectTo(path); if (fd >= 0) (void)!::send(fd, "gg", 2, MSG_NOSIGNAL); fds.push_back(fd); }
       if (r.chance(50)) { Oomd::StatsClient c(path); c.getStats(); }
+      // a client that asks for all counters and never reads the (large) reply: the handler must give up after its send
+      // timeout, close the connection and return its slot, so that destruction still completes
+      if (scn % 10 == 4) {
+        for (int k = 0; k < 30000; k++) stats->set("big.counter.number." + std::to_string(k), k);
+        int fd = connectTo(path);
+        if (fd >= 0) { (void)!::send(fd, "g\n", 2, MSG_NOSIGNAL); fds.push_back(fd); }
+        std::this_thread::sleep_for(std::chrono::milliseconds(200));
+      }
       std::this_thread::sleep_for(std::chrono::milliseconds(r.pick(std::vector<int>{0, 5, 50})));
       std::thread closer([&] { std::this_thread::sleep_for(std::chrono::milliseconds(100)); if (r.chance(50)) for (int fd : fds) if (fd >= 0) ::close(fd); });
       stats.reset(); // destructor must complete
